@@ -40,7 +40,7 @@ def gen_one(rng):
         sid = 11 + i
         retry = None if rng.random() < 0.5 else rng.randrange(0, 3)
         steps = [dict(id=sid * 10 + j + 1, pre=rng.choice([0, 1, 2, 3]), yields=rng.choice([0, 0, 1, 3, 9, 14]), post=rng.choice([0, 1, 2]),
-                      inner=rng.random() < 0.25, under=rng.random() < 0.2, leak=rng.random() < 0.2, off_thread=rng.random() < 0.15, nested=rng.random() < 0.12)
+                      inner=rng.random() < 0.25, under=rng.random() < 0.2, leak=rng.random() < 0.2, off_thread=rng.random() < 0.15, nested=rng.random() < 0.12, foreign=rng.random() < 0.12)
                  for j in range(rng.randrange(1, 4))]
         scs.append(dict(id=sid, retry=retry, fails=min(rng.choice([0, 0, 1, 2]), (retry or 0) + 1), steps=steps))
     if rng.random() < 0.3:          # a chatty step: a burst of messages between two await points
@@ -72,6 +72,10 @@ def gen(rng, tier):
 ATTR_KINDS = ("newspan", "spansid", "fmt", "reg", "regretry", "unreg")
 
 
+def is_foreign(r):
+    return r[0] == "ev" and r[1][0] == "Scen" and r[1][5][0] == "LogForeign"
+
+
 def c_rec(r):
     k = r[0]
     if k == "cb":
@@ -94,7 +98,8 @@ def term(case, res):
     if res.get("panicked") or res.get("events") != res.get("traced"):
         raise ValueError("run panicked or trace/event mismatch")
     # the records of the attribution trace points (span tree, resolved ids, registry) are judged by C20b
-    return "(mk_tcase %s)" % clist([r for r in res["history"] if r[0] not in ATTR_KINDS], c_rec)
+    # (the broadcast copies of a FOREIGN line — a line logged under a scenario id no collector knows — are nobody's messages)
+    return "(mk_tcase %s)" % clist([r for r in res["history"] if r[0] not in ATTR_KINDS and not is_foreign(r)], c_rec)
 
 
 def panic_result(case):
@@ -115,5 +120,5 @@ def describe(case, res):
             "retry=%s" % any(sc["retry"] for sc in case["scenarios"]), "outer_span=%s" % bool(case.get("outer")),
             "inner_span=%s" % any(st.get("inner") for sc in case["scenarios"] for st in sc["steps"]),
             "dunder=%s" % any(st.get("under") for sc in case["scenarios"] for st in sc["steps"]),
-            "off_thread=%s" % any(st.get("off_thread") for sc in case["scenarios"] for st in sc["steps"]), "nested_run=%s" % any(st.get("nested") for sc in case["scenarios"] for st in sc["steps"]), "leak=%s" % any(st.get("leak") for sc in case["scenarios"] for st in sc["steps"]), "filter=%s" % case.get("filter", "info"), "hooks=%s" % ("none" if not case.get("hooks") else "+".join(k for k in ("before", "after", "stagger") if case["hooks"].get(k))), "which_after=%s" % bool(case.get("which_after")),
+            "off_thread=%s" % any(st.get("off_thread") for sc in case["scenarios"] for st in sc["steps"]), "nested_run=%s" % any(st.get("nested") for sc in case["scenarios"] for st in sc["steps"]), "foreign_line=%s" % any(st.get("foreign") for sc in case["scenarios"] for st in sc["steps"]), "leak=%s" % any(st.get("leak") for sc in case["scenarios"] for st in sc["steps"]), "filter=%s" % case.get("filter", "info"), "hooks=%s" % ("none" if not case.get("hooks") else "+".join(k for k in ("before", "after", "stagger") if case["hooks"].get(k))), "which_after=%s" % bool(case.get("which_after")),
             "burst=%s" % any(st["pre"] > 8 or st["post"] > 8 for sc in case["scenarios"] for st in sc["steps"])]
